@@ -1632,3 +1632,7 @@ mutant("c02-shape-kernel-global-max", "C02", (N, """        a = scalar(a)
 mutant("c12-sem-previous-from-first-row", "C12", (V, "self.previous_value = np.take(self.value, -1).astype(float)", "self.previous_value = np.take(self.value, 0).astype(float)"), "OutputVariable.defuzzify")
 mutant("c12-sem-filler-from-stored-attribute", "C12", (V, "                        value_i[...] = previous_value  # type:ignore", "                        value_i[...] = self.previous_value  # type:ignore"), "OutputVariable.defuzzify")
 mutant("c12-sem-default-fills-everything", "C12", (V, "            value[np.isnan(value)] = self.default_value  # type: ignore", "            value[...] = np.where(np.isnan(value), self.default_value, self.default_value)  # type: ignore"), "OutputVariable.defuzzify")
+
+# ------------------------------------------------------------------------------------------ T17 number formatting (C14)
+mutant("c14-str-zero-d-fixed-three", "C14", (O, '                return f"{x.item():.{settings.decimals}f}"', '                return f"{x.item():.3f}"'), "T17/Operation.str")
+mutant("c14-str-general-format", "C14", (O, '            return f"{x:.{settings.decimals}f}"', '            return f"{x:.{settings.decimals}g}"'), "T17/Operation.str")
